@@ -276,6 +276,7 @@ func initProperties() {
 			Decides: "unknown field numbers in the message cannot crash reads (NILLOOKUP over proto/generic), kind/wire-type/packedness tables match the protobuf spec (KINDTABLE — they drive every skip), errors propagate (DROPERR, ERRSWALLOW), search loops consume (LOOPPROGRESS), unknown fields are skipped (UNKNOWNSKIP).",
 			NotDec:  "positions/values, packed/unpacked boundaries, empty sub-messages.",
 			Uses: uses(
+				use("ROOTLEN", "a field walk over a non-root message value skips its length prefix", nil),
 				use("ERRVALDESC", "a getter applied to an error value hands the error on", nil),
 				use("NOUNTYPEDSKIP", "a packed list is skipped by its element wire type", nil),
 				use("OPTSFORWARD", "the caller's options reach every part of the result", protoGeneric),
@@ -439,6 +440,7 @@ func initProperties() {
 			Decides: "every success return of thrift marshalTo has consumed from the source and produced output (MUSTCONSUME: identical descriptors must copy, not drop), headers precede elements (HDRFIRST), proto marshalTo finishes its lengths and propagates nested errors (SPECLENPAIR, DROPERR), unknown fields are skipped/rejected per option (UNKNOWNSKIP, NEGPOLARITY), lookups checked (NILLOOKUP), recursion bounded (RECDEPTH), MarshalTo copies out of the pooled buffer (POOLESCAPE).",
 			NotDec:  "that the output is exactly the projection.",
 			Uses: uses(
+				use("ROOTLEN", "a sub-message value is cut from its payload, not from its length prefix", nil),
 				use("BITMAPLEN", "a required bit is never written beyond the bitmap's length", nil),
 				use("DEFAULTARM", "a missing required field stays an error whether or not it has a default", thriftPkg),
 				use("UNKNOWNBREAK", "an unknown field does not end the field loop", anyOf(thriftGeneric, protoGeneric)),
